@@ -32,6 +32,7 @@ static inline const char *json_text_at(const iora_sv *b, size_t i)
   __CPROVER_assigns(self->_pos) \
   __CPROVER_loop_invariant(__CPROVER_loop_entry(self->_pos) <= self->_pos && self->_pos <= self->_text.n) \
   __CPROVER_loop_invariant((__CPROVER_loop_entry(self->_pos) <= GK && GK < self->_pos) ==> JSON_IS_DIGIT(self->_text.p[GK])) \
+  __CPROVER_loop_invariant(self->_pos > __CPROVER_loop_entry(self->_pos) ==> JSON_IS_DIGIT(self->_text.p[self->_pos - 1])) \
   __CPROVER_loop_invariant(GN_on ==> ((lo_) <= self->_pos && self->_pos <= (hi_))) \
   __CPROVER_decreases(self->_text.n - self->_pos))
 #define IORA_LOOP_JsonParser_parseNumber_1 JSON_DIGIT_LOOP(GN_m, GN_i)
